@@ -14,7 +14,7 @@ import (
 // further sequence lines (ORIGIN-END); both must be looked at and rejected.
 func OriginLength(p *core.Prog, r *core.Report, endToo bool) {
 	r.Rule("ORIGIN-LINE-END", "in seqio.slowGenBankOriginParser, after the loops that walk the groups of one line and before the line is copied into the block, the rest of the line (the line token from the walked extent on) is tested and a non-nil error is returned when residues remain: the fast path rejects such a line (it expects the newline right after the declared residues), the slow path must agree", 1)
-	r.Rule("ORIGIN-END", "in seqio.makeGenbankOriginParser every path from storing the block in the record to a return consults the parser state once more (a method of the state or a function that is handed the state): what follows the block must be looked at, because the record loop skips lines it does not recognise, so further sequence lines would be dropped silently", 2)
+	r.Rule("ORIGIN-END", "in seqio.makeGenbankOriginParser every path from storing the block in the record to a return consults the parser state once more (a method of the state or a function that is handed the state): what follows the block must be looked at, because the record loop skips lines it does not recognise, so further sequence lines would be dropped silently", 1)
 	info := p.Info(core.PkgSeqio)
 
 	// ---- ORIGIN-LINE-END
@@ -87,11 +87,28 @@ func OriginLength(p *core.Prog, r *core.Report, endToo bool) {
 					// reading comparison is known false (it is the condition, or a disjunct of it); conjoined with
 					// another test ("only on the last line") it is skipped for the lines where that test is false
 					alone := false
+					// variables the if statement's init defines from the rest of the line
+					readVars := map[types.Object]bool{}
+					if as, ok := is.Init.(*ast.AssignStmt); ok && len(as.Lhs) == len(as.Rhs) {
+						for i, rhs := range as.Rhs {
+							ast.Inspect(rhs, func(m ast.Node) bool {
+								if x, ok := m.(*ast.SliceExpr); ok && core.ObjOf(info, x.X) == line && x.Low != nil && core.ObjOf(info, x.Low) == extent {
+									if o := core.ObjOf(info, as.Lhs[i]); o != nil {
+										readVars[o] = true
+									}
+								}
+								return true
+							})
+						}
+					}
 					core.Facts(is.Cond, false, func(atom ast.Expr, val bool) {
 						if val {
 							return
 						}
 						ast.Inspect(atom, func(m ast.Node) bool {
+							if id, ok := m.(*ast.Ident); ok && readVars[core.ObjOf(info, id)] {
+								alone = true
+							}
 							if x, ok := m.(*ast.SliceExpr); ok && core.ObjOf(info, x.X) == line && x.Low != nil && core.ObjOf(info, x.Low) == extent {
 								alone = true
 							}
